@@ -288,6 +288,21 @@ end DSymVerif.D2
 namespace DSymVerif.D2
 open DSymVerif.DS
 
+/-- what `orbifold_symbol` computes on a good 2D symbol -/
+theorem orbifoldSymbol_unfold' {s : Sym} (g : Good2d s) {bnds : List (List Nat)}
+    (hb : traceBoundary s = .ok bnds) :
+    orbifoldSymbol s =
+      if 2 - (eulerCharacteristic s + (bnds.length : Int)) < 0 then .panic
+      else .ok { cones := sortDescNat (conesOf (typesOf s.data)), bnds := bnds,
+                 orientable := s.view.isWeaklyOriented,
+                 count := if s.view.isWeaklyOriented
+                   then (2 - (eulerCharacteristic s + (bnds.length : Int))).toNat / 2
+                   else (2 - (eulerCharacteristic s + (bnds.length : Int))).toNat } := by
+  unfold orbifoldSymbol
+  have hc : s.isComplete = true := by
+    cases hr : s.rep <;> simp [Sym.isComplete, hr, g.complete]
+  rw [if_neg (by simp [g.dim]), if_neg (by simp [hc]), hb, coneDegrees_good g]
+
 /-- with M1 a theorem, the symbol is exact as soon as the genus part of the monitor holds -/
 theorem symbolExact_of_genus {s : Sym} (g : Good2d s) (hmon : genusMonitor s = true) :
     ∃ o, SymbolExact s o := by
@@ -315,7 +330,7 @@ theorem symbolExact_of_genus {s : Sym} (g : Good2d s) (hmon : genusMonitor s = t
     · cases hos'
     · rename_i hx
       have ho := (Outcome.ok.inj hos').symm
-      refine ⟨o, hos, ?_, ?_, ?_, ?_⟩
+      refine ⟨o, ⟨hos, ?_, ?_, ?_⟩, ?_⟩
       · rw [ho]; exact sortDescNat_perm _
       · rw [ho]; exact hperm
       · rw [ho]
@@ -336,6 +351,61 @@ theorem symbolExact_of_genus {s : Sym} (g : Good2d s) (hmon : genusMonitor s = t
         simp only
         cases (⟨y, rep⟩ : Sym).view.isWeaklyOriented <;> simp
   · cases hmon
+
+/-- the census part needs the parity monitor only -/
+theorem symbolCensus_of_parity {s : Sym} (g : Good2d s) (hmon : parityMonitor s = true) :
+    ∃ o, SymbolCensus s o := by
+  obtain ⟨y, rep⟩ := s
+  have hval : ValidSym y := g.valid
+  have hdim : y.dim = 2 := g.dim
+  obtain ⟨bnds, htb, hperm⟩ := traceBoundary_corners hval hdim rep
+  unfold parityMonitor at hmon
+  rw [htb] at hmon
+  split at hmon
+  · rename_i bnds' o htb' hos
+    cases htb'
+    simp only [Bool.or_eq_true, Bool.not_eq_eq_eq_not, Bool.not_true, beq_iff_eq] at hmon
+    have hos' := hos
+    rw [orbifoldSymbol_unfold' g htb] at hos'
+    split at hos'
+    · cases hos'
+    · rename_i hx
+      have ho := (Outcome.ok.inj hos').symm
+      refine ⟨o, hos, ?_, ?_, ?_⟩
+      · rw [ho]; exact sortDescNat_perm _
+      · rw [ho]; exact hperm
+      · rw [ho]
+        simp only
+        by_cases hw : (⟨y, rep⟩ : Sym).view.isWeaklyOriented = true
+        · simp only [hw, if_true]
+          have hp : (2 - (eulerCharacteristic ⟨y, rep⟩ + (bnds.length : Int))) % 2 = 0 := by
+            rcases hmon with hp | hp
+            · rw [ho] at hp; simp only at hp; rw [hw] at hp; cases hp
+            · exact hp
+          omega
+        · simp only [hw]
+          simp only [Bool.false_eq_true, if_false]
+          omega
+  · cases hmon
+
+/-- non-orientable symbols: the parity monitor holds whenever the symbol is defined -/
+theorem parity_of_nonorientable {s : Sym} (g : Good2d s) {o : OrbSym} (hos : orbifoldSymbol s = .ok o)
+    (hno : o.orientable = false) : parityMonitor s = true := by
+  obtain ⟨bnds, htb, _⟩ := traceBoundary_corners g.valid g.dim s.rep
+  have htb' : traceBoundary s = .ok bnds := htb
+  unfold parityMonitor
+  rw [htb', hos]
+  simp [hno]
+
+/-- the genus monitor implies the parity monitor -/
+theorem parity_of_genus {s : Sym} (h : genusMonitor s = true) : parityMonitor s = true := by
+  unfold genusMonitor at h
+  unfold parityMonitor
+  split at h
+  · rename_i bnds o htb hos
+    simp only [Bool.and_eq_true] at h
+    exact h.1
+  · cases h
 
 /-- the full monitor implies its genus part -/
 theorem genus_of_symbolExact {s : Sym} (hex : symbolExact s = true) : genusMonitor s = true := by
